@@ -218,7 +218,7 @@ def payOneSent (cfg : DispCfg) (height : Int) (s : DispState) (r : Rec) : M (Dis
     | none => .error .other               -- panic("Unable to set Distribution Records to completed")
     | some bank'' => .ok ({ s1 with bank := bank'' }, .skipped)
   | (s1, true) =>
-    .ok (if r.typ.claimable then { s1 with claims := sDel s1.claims (claimKey r.rcpt r.typ) } else s1, .paid)
+    .ok (if r.typ.claimable then { s1 with claims := sDel s1.claims (claimKey (cfg.canon r.rcpt) r.typ) } else s1, .paid)
 
 /-- one iteration of the loop of `DistributeDrops` on a record collected beforehand -/
 def payOne (cfg : DispCfg) (height : Int) (s : DispState) (r : Rec) : M (DispState × Outcome) :=
@@ -246,10 +246,11 @@ def runDistribution (cfg : DispCfg) (height : Int) (s : DispState) (m : MsgRun) 
 
 /-! ### CreateUserClaim -/
 
-def createClaim (s : DispState) (m : MsgClaim) : Option DispState :=
-  if sHas s.claims (claimKey m.user m.typ) then none
+/-- `GetUserClaimKey` keys a claim by the decoded account (fix F28), not by the spelling -/
+def createClaim (cfg : DispCfg) (s : DispState) (m : MsgClaim) : Option DispState :=
+  if sHas s.claims (claimKey (cfg.canon m.user) m.typ) then none
   else if m.user.isEmpty then none
-  else some { s with claims := sSet s.claims (claimKey m.user m.typ) () }
+  else some { s with claims := sSet s.claims (claimKey (cfg.canon m.user) m.typ) () }
 
 /-! ### transactions, blocks, histories -/
 
@@ -279,7 +280,7 @@ def deliver (cfg : DispCfg) (maxRecords : Nat) (height : Int) (s : DispState) : 
       | .ok (s', os) => (s', .ok, os)
   | .claim m =>
       if !m.validateBasic cfg then (s, .err, []) else
-      match createClaim s m with
+      match createClaim cfg s m with
       | none => (s, .err, [])
       | some s' => (s', .ok, [])
 
